@@ -186,13 +186,12 @@ def tf_table(txn, transforms):
     return tab
 
 
-def norm_result(t, rules, transforms, ds):
-    amount = None if t.get('a') is None else t['a'] / TICK
+def norm_call(desc, rules, amount, dt, field, source, transforms, location, ds):
     try:
         m, c, s, info = merchant_utils.normalize_merchant(
-            t['d'], rules, amount=amount, txn_date=mk_date(t.get('date')), field=copy.deepcopy(t.get('field')),
-            data_source=t.get('source'), transforms=[tuple(x) for x in transforms] if transforms else None,
-            location=t.get('location'), data_sources=ds)
+            desc, rules, amount=amount, txn_date=dt, field=copy.deepcopy(field),
+            data_source=source, transforms=[tuple(x) for x in transforms] if transforms else None,
+            location=location, data_sources=ds)
     except XE as e:
         return {'crash': 'ExpressionError:' + cls(e)}
     except Exception as e:  # noqa
@@ -204,6 +203,60 @@ def norm_result(t, rules, transforms, ds):
                        'extra': [[k, show(v)] for k, v in (info.get('extra_fields') or {}).items()],
                        'tag_sources': {k: (v.get('rule') if isinstance(v, dict) else None)
                                        for k, v in (info.get('tag_sources') or {}).items()}}
+    return out
+
+
+def norm_result(t, rules, transforms, ds):
+    amount = None if t.get('a') is None else t['a'] / TICK
+    return norm_call(t['d'], rules, amount, mk_date(t.get('date')), t.get('field'), t.get('source'), transforms,
+                     t.get('location'), ds)
+
+
+ROW_FORMAT = '{date:%Y-%m-%d},{description},{amount},{memo},{code},{location}'
+ROW_SOURCE = 'Amex'
+
+
+def sequence_and_rows(load, txns, transforms, ds, tmp, engine=None):
+    """The same transactions classified BACK TO BACK within one load (normalize_merchant in sequence, and as rows of a
+    statement file through parse_generic_csv), next to the reference: each row classified alone in a fresh load.
+    load() -> rules of a fresh get_all_rules()."""
+    from tally.format_parser import parse_format_string
+    from tally.parsers import parse_generic_csv
+    import csv as _csv
+    out = {}
+    rules = load()
+    out['seq'] = [norm_result(t, rules, transforms, ds) for t in txns]
+    rows = [t for t in txns if t.get('a') not in (None, 0) and t.get('date') and t['d'].strip()]
+    path = os.path.join(tmp, 'statement.csv')
+    with open(path, 'w', encoding='utf-8', newline='') as f:
+        w = _csv.writer(f)
+        w.writerow(['Date', 'Description', 'Amount', 'Memo', 'Code', 'Location'])
+        for t in rows:
+            fld = t.get('field') or {}
+            w.writerow([t['date'], t['d'], repr(t['a'] / TICK), fld.get('memo', ''), fld.get('code', ''), t.get('location') or ''])
+    rules = load()
+    try:
+        parsed = parse_generic_csv(path, parse_format_string(ROW_FORMAT), rules, source_name=ROW_SOURCE,
+                                   transforms=[tuple(x) for x in transforms] if transforms else None, data_sources=ds)
+    except Exception as e:  # noqa
+        out['rows_error'] = f'{cls(e)}: {e}'
+        return out
+    out['rows_in'], out['rows'] = len(rows), []
+    for p in parsed:
+        rules = load()
+        dt = p['date'].date()
+        ref = norm_call(p['raw_description'], rules, p['amount'], dt, p.get('field'), p.get('source'), transforms, p.get('location'), ds)
+        mi = p.get('match_info')
+        row = {'txn': {'d': p['raw_description'], 'amount': p['amount'], 'date': dt.isoformat(), 'field': p.get('field'),
+                       'source': p.get('source'), 'location': p.get('location')},
+               'got': {'m': p['merchant'], 'c': p['category'], 's': p['subcategory'], 'tags': sorted(p.get('tags') or [])},
+               'ref': ref}
+        if engine is not None:
+            b = {'description': p['raw_description'], 'amount': p['amount'] or 0, 'field': copy.deepcopy(p.get('field')),
+                 'source': p.get('source'), 'location': p.get('location'), 'date': dt}
+            trd = merchant_utils.apply_transforms(copy.deepcopy(b), [tuple(x) for x in transforms] if transforms else [])
+            row['oracle'] = engine_oracle(engine, trd, ds)
+        out['rows'].append(row)
     return out
 
 
@@ -250,6 +303,14 @@ def job_rules(job, tmp):
             merchant_utils.clear_engine_cache()
         res.append(r)
     out['txns'] = res
+    if job.get('norm'):
+        out['one_load'] = {}
+        for mode, eng in (('first_match', eng_fm), ('most_specific', eng_ms)):
+            def load(mode=mode):
+                merchant_utils.clear_engine_cache()
+                return merchant_utils.get_all_rules(path, match_mode=mode)
+            out['one_load'][mode] = sequence_and_rows(load, job['txns'], [list(x) for x in eng_fm.transforms], ds, tmp, engine=eng)
+        merchant_utils.clear_engine_cache()
     return out
 
 
@@ -338,6 +399,11 @@ def job_csv(job, tmp):
             r['tf'] = tf_table(b, [tuple(x) for x in transforms])
         res.append(r)
     out['txns'] = res
+
+    def load():
+        merchant_utils.clear_engine_cache()
+        return merchant_utils.get_all_rules(path)
+    out['one_load'] = {'legacy': sequence_and_rows(load, job['txns'], transforms, ds, tmp)}
     merchant_utils.clear_engine_cache()
     return out
 
